@@ -156,6 +156,8 @@ def _mk_exc(i):
         return SystemExit(3)
     if i == 9:
         return KeyError("k")
+    if i == 10:
+        return BadExtract("bad extract")
     raise IndexError(i)
 
 
@@ -164,7 +166,7 @@ N_EXC = 10
 # exit attribute: 0 = normal return; else (catch_up, exception index)
 # catch_up: number of enclosing action boundaries the exception crosses after
 # leaving this action before it is caught (99 = to the top of the program).
-EXITS = [None] + [(0, e) for e in range(N_EXC)] + [(1, 0), (99, 0), (1, 3), (99, 6), (2, 2)]
+EXITS = [None] + [(0, e) for e in range(N_EXC)] + [(1, 0), (99, 0), (1, 3), (99, 6), (2, 2), (0, 10), (99, 10)]
 
 
 def exc_name(e):
@@ -199,11 +201,81 @@ FIELDSETS = [
 ]
 N_FS = len(FIELDSETS)
 
+
+# Hostile values (C07): indexes N_FS.. in ALL_FS
+class _StrBoom(object):
+    def __str__(self):
+        raise RuntimeError("str boom")
+
+
+class _ReprBoom(object):
+    def __repr__(self):
+        raise RuntimeError("repr boom")
+
+
+class _BothBoom(object):
+    def __str__(self):
+        raise RuntimeError("str boom")
+
+    def __repr__(self):
+        raise RuntimeError("repr boom")
+
+
+def _deep(n):
+    x = []
+    for _ in range(n):
+        x = [x]
+    return x
+
+
+def _selfref():
+    x = [1]
+    x.append(x)
+    return x
+
+
+def hostile_fieldsets():
+    return [
+        {"h": _StrBoom()},
+        {"h": _ReprBoom()},
+        {"h": _BothBoom()},
+        {"h": {1: "int key"}},
+        {"h": {(1, 2): "tuple key"}},
+        {"h": {_BothBoom(): "object key"}},
+        {"h": 2 ** 64},
+        {"h": -(2 ** 63) - 1},
+        {"h": float("nan")},
+        {"h": float("inf"), "g": float("-inf")},
+        {"h": b"\xff\xfe bytes"},
+        {"h": "lone \ud800 surrogate"},
+        {"h": object()},
+        {"h": _deep(400)},
+        {"h": _selfref()},
+        {"x": _BothBoom()},
+    ]
+
+
+HOSTILE = hostile_fieldsets()
+ALL_FS = FIELDSETS + HOSTILE
+N_ALL_FS = len(ALL_FS)
+
 MTYPES = ["app:m", "app:n", ""]
 
 
 def _wrap(v):
     return {"ser": v}
+
+
+class SerializerBoom(Exception):
+    pass
+
+
+def _raising_serializer(v):
+    raise SerializerBoom("serializer failed")
+
+
+class BadExtract(Exception):
+    """Application exception whose registered extractor raises."""
 
 
 TYPED_MSG = MessageType("app:typed", [Field("tv", _wrap, "wrapped")], "typed message")
@@ -216,6 +288,10 @@ TYPED_ACT = [
     )
     for i in range(2)
 ]
+TYPED_MSG_BAD = MessageType("app:badtyped", [Field("tv", _raising_serializer, "")], "")
+TYPED_ACT_BAD = ActionType(
+    "app:B", [Field("tv", _raising_serializer, "")], [Field("rv", _raising_serializer, "")], ""
+)
 ATYPES = ["app:X", "app:Y"]
 
 MSG_APIS = [
@@ -325,6 +401,11 @@ class Interp(object):
     # -- execution
     def run(self):
         register_exception_extractor(Custom, lambda e: {"code": e.code})
+
+        def bad_extractor(e):
+            raise RuntimeError("extractor failed")
+
+        register_exception_extractor(BadExtract, bad_extractor)
         for stmt in self.prog:
             try:
                 self.exec_stmt(stmt)
@@ -358,7 +439,7 @@ class Interp(object):
         a = s[1]
         api = a.get("api", 0)
         mt = MTYPES[a.get("mt", 0)]
-        fs = dict(FIELDSETS[a.get("fs", 0)])
+        fs = dict(ALL_FS[a.get("fs", 0)])
         fs["serial"] = self._next_serial()
         cur = current_action()
         if api == 0:
@@ -392,6 +473,10 @@ class Interp(object):
                 TYPED_MSG.log(tv=tv, **fs)
             else:
                 TYPED_MSG(tv=tv, **fs).write()
+        elif api == 7:
+            ref = {"k": "m", "type": "app:badtyped", "fields": dict(fs), "dropped": True}
+            self._attach(ref)
+            TYPED_MSG_BAD.log(tv=1, **fs)
         elif api == 5:
             ref = {
                 "k": "m",
@@ -424,11 +509,11 @@ class Interp(object):
         style = a.get("style", 0)
         typed = a.get("typed", 0)
         sfi, efi = a.get("sf", 0), a.get("ef", 0)
-        sf = dict(FIELDSETS[sfi])
-        ef = dict(FIELDSETS[efi])
+        sf = dict(ALL_FS[sfi])
+        ef = dict(ALL_FS[efi])
         xf = a.get("xf", 0)
         if typed:
-            at = TYPED_ACT[a.get("at", 0)]
+            at = TYPED_ACT[a.get("at", 0)] if typed == 1 else TYPED_ACT_BAD
             atype = at.action_type
             tv = "start%d" % sfi
             rv = "res%d" % efi
@@ -483,8 +568,8 @@ class Interp(object):
 
         if style == 4:
             # log_call: the decorated function's argument and result are the fields
-            arg = FIELDSETS[sfi].get("x", "arg%d" % sfi)
-            result = FIELDSETS[efi].get("x", "res%d" % efi)
+            arg = ALL_FS[sfi].get("x", "arg%d" % sfi)
+            result = ALL_FS[efi].get("x", "res%d" % efi)
             at_name = "app:call%d" % a.get("at", 0)
             ref["type"] = at_name
             ref["start"] = {"x": arg}
